@@ -200,9 +200,15 @@ def class_source(i: int, s: dict, prog: list | None = None) -> str:
         body.append("@functools.cached_property\ndef cp(self):\n    return ['cp', len(dataclasses.fields(self))]")
     if s["super_repr"]:
         body.append("def __repr__(self):\n    return 'R:' + str(super().__eq__(self))")
-    if s["hooks"] in ("pair", "get"):
+    # user pickle hooks.  The pair uses its own (versioned) state format, so that it only works when it is really the
+    # user's __setstate__ that receives the user's __getstate__ result; a lone hook keeps the default formats.
+    if s["hooks"] == "pair":
+        body.append("def __getstate__(self):\n    return ('v1', {f.name: getattr(self, f.name) for f in dataclasses.fields(self)})")
+        body.append("def __setstate__(self, state):\n    tag, values = state\n    assert tag == 'v1'\n"
+                    "    for k, v in values.items():\n        object.__setattr__(self, k, v)")
+    if s["hooks"] == "get":
         body.append("def __getstate__(self):\n    return {f.name: getattr(self, f.name) for f in dataclasses.fields(self)}")
-    if s["hooks"] in ("pair", "set"):
+    if s["hooks"] == "set":
         body.append("def __setstate__(self, state):\n    for k, v in (state.items() if isinstance(state, dict) else "
                     "[kv for d in state if d for kv in d.items()]):\n        object.__setattr__(self, k, v)")
     if not body:
